@@ -27,6 +27,8 @@ def check(chk, thorough=False):
     chk.run('C09.p', 'R-ESCAPE', 'a SESS_TERM with any reason code is recorded: the handlers do not look peer values up in an enumeration unguarded (= C17.a, enumeration clause)', lambda ob: __import__('sa.props.c17', fromlist=['peer_enum_lookups']).peer_enum_lookups(tree, ob), floor=1)
     chk.run('C09.i', 'R-GUARD', 'the idle indication that gates the close covers transfers, queues and every octet buffer down to the socket (= C18.d)', lambda ob: _c18d(tree, ob), floor=6)
     chk.run('C09.j', 'R-PAIR', 'timers of a terminating endpoint: own transmissions do not defer the idle close, the SESS_TERM arms it (= C14.d)', lambda ob: _c14d(tree, ob), floor=4)
+    chk.run('C09.q', 'R-GUARD', 'termination lets transfers in progress finish: the segment / acknowledgement handlers never refuse because of the termination flags (= C01.q)', lambda ob: __import__('sa.props.common', fromlist=['transfers_outlive_sess_term']).transfers_outlive_sess_term(tree, ob), floor=1)
+    chk.run('C09.r', 'R-FLOW', 'every octet of a SESS_TERM (and of what precedes it) reaches the socket: the transmit buffers drop exactly what send() accepted (= C01.b)', lambda ob: __import__('sa.props.c01', fromlist=['c01b']).c01b(tree, ob), floor=7)
     chk.run('C09.g', 'R-ITER', 'agent stop/shutdown loops are not invalidated by the handlers they close and do not skip handlers', lambda ob: c09g(tree, ob), floor=2)
 
 
